@@ -251,7 +251,11 @@ func c14Case(c *core.Ctx, r *core.Rand, i int, caseDir string) {
 		c.Skip("reference model: result not determined by the property statements")
 		return
 	}
-	res := core.RunAt(e, topSrc, topPath, 1, gen.CanonEnv(env))
+	bind := gen.CanonEnv(env)
+	if i%3 == 2 {
+		bind["incname"] = gen.NTitle(f0.arg) // the name of the file as a value of a named string type
+	}
+	res := core.RunAt(e, topSrc, topPath, 1, bind)
 	c.Eval(1)
 	c.Obs("graphs", 1)
 	c.Obs("includes_in_graphs", int64(strings.Count(exp, "[")+1))
@@ -382,6 +386,23 @@ func c14CacheLifecycle(c *core.Ctx, r *core.Rand, cwd string) {
 	c.Eval(1)
 	if !before.Failed() {
 		c.Violate("include|cache-lifecycle|missing-not-reported", "an include of a file that is neither on disk nor registered must fail the render", map[string]any{"source": topSrc, "observed": before.Brief()})
+	}
+	// a path that runs through a regular file names no file on disk: a source registered for it is used
+	os.WriteFile(filepath.Join(dir, "plainfile"), []byte("x"), 0o644)
+	through := filepath.Join(dir, "plainfile", "part.html")
+	buf := []byte("[registered under a path through a file: {{ n }}]")
+	wantThrough := core.Run(e, string(buf), b)
+	if _, err := e.ParseTemplateAndCache(buf, through, 1); err == nil {
+		for k := range buf {
+			buf[k] = 'X' // the caller reuses its buffer: what was registered must not change with it
+		}
+		got := core.RunAt(e, "{% include 'plainfile/part.html' %}", filepath.Join(dir, "top.liquid"), 1, b)
+		c.Eval(2)
+		c.Obs("cache_lifecycle_steps", 1)
+		if !got.Same(wantThrough) {
+			c.Violate("include|cache-lifecycle|registered-source-not-used|"+resClass(got), "a source registered with ParseTemplateAndCache is used when no such file exists (also when the path runs through a regular file), exactly as it was registered (the caller may reuse its buffer)",
+				map[string]any{"registered_path": "plainfile/part.html (plainfile is a regular file)", "expected": wantThrough.Brief(), "observed": got.Brief()})
+		}
 	}
 	versions := []string{"<li class=\"item\">{{ s | upcase }}, {{ n }}</li> and a good deal of trailing text " + strings.Repeat("x", r.Intn(40)), "<li>{{ n }}</li>", "", "v4 {{ n | plus: 1 }}{% if t %} yes{% endif %} " + strings.Repeat("longer than all before ", 3), "z"}
 	shuffled := make([]string, 0, len(versions))
